@@ -177,6 +177,23 @@ pub static C01: CheckSpec = CheckSpec {
     assumptions: &["the oracle trusts the crate's ECDSA id-signature verification (reference vectors in the test suite)", "effects of sessions the node itself dialled are justified by its own request to that contact (the remote proves itself by decrypting under the static-key ECDH)"],
 };
 
+pub static C02: CheckSpec = CheckSpec {
+    id: "C02",
+    level: "fault_enumeration",
+    scenarios: &[
+        Scenario { name: "tamper-enumerated", weight: 1, run: worlds::h_tamper::run_enum },
+        Scenario { name: "tamper-explored", weight: 1, run: worlds::h_tamper::run_explore },
+    ],
+    runs_quick: 60_000,
+    runs_thorough: 2 * worlds::h_tamper::ENUM_SPACE + 200_000,
+    cap_quick_s: 75,
+    cap_thorough_s: 1500,
+    rule: "enumerated half: 6 base exchanges (fresh recipient session, initiator with multi-packet NODES, record-less contact awaiting the record, re-key after session loss, simultaneous dial with a third node, NODES in 2 packets then reverse PING) x datagram index 0..9 x mutation index j (every single-bit flip, every truncation length, a 1-byte insertion at every offset; j beyond the datagram's length is an empty case that ends at once): 198000 cases, all executed by the thorough tier, a fixed-stride sample by the quick tier; exactly one genuine datagram is replaced by its mutation per run. explored half: tape-chosen base plus extra requests, 5-40 % of the datagrams mutated by bit flip / truncation / insertion / header-body splice with an earlier datagram / misdelivery / re-masking for another node / spoofed source, with jitter and duplicates, sometimes delivering the genuine datagram as well; non-trivial = at least one mutated datagram was delivered; distinct = distinct event-log hash",
+    components_real: REAL_HANDLER,
+    components_stub: STUB_HANDLER,
+    assumptions: &["a delivered message is matched to its carrier by decrypting the receiver's genuine inbound datagrams with the sender's logged session keys (hook H6) and comparing the plaintext with the re-encoded delivered message", "duplicated or replayed genuine datagrams may be delivered again (the handler keeps no replay window and the property allows it)"],
+};
+
 pub static C03: CheckSpec = CheckSpec {
     id: "C03",
     level: "fault_enumeration",
@@ -194,7 +211,7 @@ pub static C03: CheckSpec = CheckSpec {
     assumptions: &["a challenge's expiry is request_timeout after the WHOAREYOU or after the last delivered handshake that may have re-armed it (invalid-signature re-insert)", "the oracle trusts the crate's id-signature verification to attribute an accepted handshake to the challenge it answers"],
 };
 
-pub static ALL: &[&CheckSpec] = &[&C01, &C03, &C04, &C07, &C08, &C09, &C10, &C13, &C16, &C18, &C19];
+pub static ALL: &[&CheckSpec] = &[&C01, &C02, &C03, &C04, &C07, &C08, &C09, &C10, &C13, &C16, &C18, &C19];
 
 pub fn lookup(id: &str) -> Option<&'static CheckSpec> {
     ALL.iter().copied().find(|c| c.id.eq_ignore_ascii_case(id))
